@@ -78,8 +78,8 @@ CLAIMED = {
    "rapid PBT: up-then-down execution on a real SQLite engine (inverse/round-trip oracle with independent catalog comparison) + formatter down-section consistency against Plan.Changes[].ReverseStmts()",
    "SQLite (current, desired) pairs biased to reversible plans are planned; when Plan.Reversible the statements are executed and then the reverse statements of the changes in reverse order; the harness' PRAGMA catalog before must equal after and Atlas' diff original<->result must be empty both ways. "
    "For every plan: Reversible implies every change with a schema Source has a reverse statement. Down-file part: the same plans (indent '', two spaces, tab) are written with golang-migrate, goose, flyway, dbmate and liquibase formatters and the down section / rollback lines, "
-   "scanned with the statement scanner, must be exactly the reverse statements in (reverse) change order; the same for MySQL and PostgreSQL plans built from the multi-dialect model, MySQL also through drivers opened (sqlmock answers the version query) as MySQL 8 / 5.7 / MariaDB / TiDB, with CHECK-without-name additions (irreversible) next to catalogue edits. A separate sub-check runs up-then-down on schemas with inline UNIQUE constraints (automatic indexes).",
-   "Engine execution is SQLite only; MySQL/PostgreSQL reverse statements are compared with the down files but never executed (no server offline). PRAGMA foreign_keys bookkeeping statements carry no reverse by design and are skipped on the way down.",
+   "scanned with the statement scanner, must be exactly the reverse statements in (reverse) change order; the same for MySQL and PostgreSQL plans built from the multi-dialect model, MySQL also through drivers opened (sqlmock answers the version query) as MySQL 8 / 5.7 / MariaDB / TiDB, with CHECK-without-name additions (irreversible) next to catalogue edits. A separate sub-check runs up-then-down on schemas with inline UNIQUE constraints (automatic indexes). Inverse-plan relation (MySQL, PostgreSQL): for a plan reported reversible Atlas must be able to plan desired -> current, every clause of that plan (ALTER TABLE split at top-level commas) must be among the reverse statements, and no reverse statement is an ALTER without a clause or an index without key parts.",
+   "Engine execution is SQLite only; MySQL/PostgreSQL reverse statements are compared with the down files and with Atlas' own plan for the way back, but never executed (no server offline). PRAGMA foreign_keys bookkeeping statements carry no reverse by design and are skipped on the way down.",
    "4/C17"),
  "C02": ("exploration",
    "exhaustive single-edit enumeration + rapid PBT over non-interfering edit sets; metamorphic oracle: reported change set == union of expected change descriptors as a multiset; null relations under copy and permutation",
